@@ -3,9 +3,110 @@
 package main
 
 import (
+	"fmt"
+	"os"
+	"time"
+
 	vaxis "git.sr.ht/~rockorager/vaxis"
 	"verif/harness/hx"
+	"verif/harness/renderhx"
 )
+
+func bit(m uint32, i uint) bool { return m&(1<<i) != 0 }
+
+func advTerm(m uint32) string {
+	return fmt.Sprintf("(Build_adv %v %v %v %v %v %v %v %v %v %v %v %v %v %v %v %v)", bit(m, 0), bit(m, 1), bit(m, 2), bit(m, 3),
+		bit(m, 5), bit(m, 6), bit(m, 7), bit(m, 8), bit(m, 9), bit(m, 10), bit(m, 11), bit(m, 12), bit(m, 13), bit(m, 14), bit(m, 15), bit(m, 16))
+}
+
+var capOrder = []string{"synchronizedUpdate", "unicodeCore", "colorThemeUpdates", "inBandResize", "kittyKeyboard", "kittyGraphics",
+	"sixels", "reportSizeChars", "reportSizePixels", "explicitWidth", "rgb", "styledUnderlines", "osc4", "osc10", "osc11", "osc176"}
+
+func capsStreams(cfg *hx.Config) (*hx.Stream, *hx.Stream) {
+	os.Unsetenv("COLORTERM")
+	os.Unsetenv("VAXIS_GRAPHICS")
+	os.Unsetenv("VAXIS_FORCE_LEGACY_SGR")
+	caps := hx.NewStream("caps", "model.Gate", "adv * list bool", "c07_caps_violations", "c07_caps_violations")
+	caps.ShardMax = 4000
+	gate := hx.NewStream("gate", "model.RenderTypes model.Gate", "caps * list tok", "c07_gate_violations", "c07_gate_violations")
+	gate.ShardMax = 60
+	var masks []uint32
+	if cfg.Thorough() {
+		for m := uint32(0); m < 1<<17; m++ {
+			masks = append(masks, m)
+		}
+	} else {
+		masks = append(masks, 0, 1<<17-1)
+		for i := uint(0); i < 17; i++ {
+			masks = append(masks, 1<<i)
+			for j := i + 1; j < 17; j++ {
+				masks = append(masks, 1<<i|1<<j)
+			}
+		}
+		for i := 0; i < 400; i++ {
+			masks = append(masks, uint32(cfg.Rand.Intn(1<<17)))
+		}
+	}
+	styles := []vaxis.Style{
+		{Foreground: vaxis.RGBColor(1, 2, 3), Background: vaxis.IndexColor(3), UnderlineStyle: vaxis.UnderlineCurly, UnderlineColor: vaxis.RGBColor(9, 9, 9)},
+		{Foreground: vaxis.IndexColor(200), Attribute: vaxis.AttrBold | vaxis.AttrItalic, UnderlineStyle: vaxis.UnderlineSingle, UnderlineColor: vaxis.IndexColor(5)},
+		{Background: vaxis.RGBColor(255, 0, 0), Attribute: vaxis.AttrDim, Hyperlink: "http://x", UnderlineStyle: vaxis.UnderlineDashed},
+		{},
+	}
+	for k, m := range masks {
+		fc := hx.NewFakeConsole(hx.ProfileFromMask(m, 3, 8))
+		vx, err := vaxis.New(vaxis.Options{WithConsole: fc, NoSignals: true, DisableMouse: true})
+		if err != nil {
+			panic(err)
+		}
+		got := vx.VerifCaps()
+		var obs []string
+		var obsJ []bool
+		for _, n := range capOrder {
+			obs = append(obs, hx.Bool(got[n]))
+			obsJ = append(obsJ, got[n])
+		}
+		caps.Add(hx.Tuple(advTerm(m), hx.List(obs)), map[string]interface{}{"advertised_mask": m, "caps": obsJ}, m != 0, fmt.Sprintf("bits=%d", popcount(m)))
+		// vocabulary: a few frames with every kind of style, wide cells and a cursor
+		if !cfg.Thorough() || k%16 == 0 {
+			fc.Take()
+			var toks []string
+			win := vx.Window()
+			for f := 0; f < 3; f++ {
+				for i := 0; i < 8; i++ {
+					st := styles[(i+f+cfg.Rand.Intn(2))%len(styles)]
+					g := []string{"a", "漢", "é", "", "👍🏽"}[cfg.Rand.Intn(5)]
+					col := cfg.Rand.Intn(7)
+					win.SetCell(col, cfg.Rand.Intn(3), vaxis.Cell{Character: vaxis.Character{Grapheme: g}, Style: st})
+				}
+				if f == 1 {
+					vx.ShowCursor(1, 1, vaxis.CursorBeam)
+				}
+				if f == 2 {
+					vx.Refresh()
+				} else {
+					vx.Render()
+				}
+				toks = append(toks, renderhx.Tokenize(fc.Take())...)
+				for len(vx.Events()) > 0 {
+					<-vx.Events()
+				}
+			}
+			adv := fmt.Sprintf("(Build_caps %v %v %v %v)", bit(m, 10), bit(m, 11) || bit(m, 16), bit(m, 0), bit(m, 9))
+			gate.Add(hx.Tuple(adv, hx.List(toks)), map[string]interface{}{"advertised_mask": m, "tokens": len(toks)}, true, fmt.Sprintf("bits=%d", popcount(m)))
+		}
+		hx.WithTimeout(2*time.Second, vx.Close)
+	}
+	return caps, gate
+}
+
+func popcount(m uint32) int {
+	n := 0
+	for ; m != 0; m &= m - 1 {
+		n++
+	}
+	return n
+}
 
 func main() {
 	cfg := hx.ParseFlags()
@@ -47,6 +148,7 @@ func main() {
 	for i := 0; i < 50; i++ {
 		add(vaxis.Color(cfg.Rand.Uint32()), "rawbits")
 	}
-	cfg.Write("C07", "colours: default, indexed, all triples over a set of boundary channel levels, uniformly random RGB, raw 32-bit values; non-trivial = RGB-tagged (goes through the palette search); distinct by (colour,result)",
-		[]*hx.Stream{s}, nil, nil)
+	capsS, gateS := capsStreams(cfg)
+	cfg.Write("C07", "caps: fake terminals answering exactly the start-up queries of a capability subset (quick: none, all, every single capability, every pair, 400 random subsets of 17; thorough: all 2^17), capabilities reported by Vaxis compared with those advertised; gate: on such terminals three frames (render, render with cursor, refresh) with direct/indexed colours, styled and coloured underlines, hyperlinks, wide and zero-width cells, every token written classified by allowed; colours: default, indexed, all triples over a set of boundary channel levels, uniformly random RGB, raw 32-bit values; non-trivial = RGB-tagged (goes through the palette search); distinct by (colour,result)",
+		[]*hx.Stream{s, capsS, gateS}, nil, nil)
 }
